@@ -35,8 +35,10 @@
   together) under `reachableMM`.
   And `iter_eq_spec_byeaster_below_yearly_partial`: BYEASTER (−80..250, 1583..4099) under DAILY and every sub-daily family.
   And `iter_eq_spec_monthly_easter_partial` / `iter_eq_spec_weekly_easter_partial` (WEEKLY: offsets −74..250, the exact class).
-  Missing: BYEASTER together with BYWEEKNO, nth BYDAY with plain BYDAY (all of it inside D-C01a), BYWEEKNO with BYEASTER or
-  nth BYDAY.  Everything else below — including
+  And `iter_eq_spec_nth_weekno_partial`: nth BYDAY together with BYWEEKNO (MONTHLY, YEARLY with / without BYMONTH).
+  And `iter_eq_spec_easter_mixed_partial`: BYEASTER with nth BYDAY (MONTHLY / YEARLY) and YEARLY BYWEEKNO + BYEASTER.
+  Missing: BYEASTER together with BYWEEKNO below YEARLY, nth BYDAY + BYWEEKNO + BYEASTER all three, nth BYDAY with plain BYDAY
+  (all of it inside D-C01a).  Everything else below — including
   `iter_strictMono` for all seven frequencies — is proved for ALL rules / all argument sets, with no
   `Supported` hypothesis (so also inside the known-defect classes).
 -/
@@ -63,6 +65,11 @@ import DateutilVerif.Proofs.RRuleSecondlyBS
 import DateutilVerif.Proofs.RRuleMinutelyBHM
 import DateutilVerif.Proofs.RRuleWeeklyW
 import DateutilVerif.Proofs.RRuleInterleave
+import DateutilVerif.Proofs.RRuleNthWYearly
+import DateutilVerif.Proofs.RRuleNthWYM
+import DateutilVerif.Proofs.RRuleNthEYearly
+import DateutilVerif.Proofs.RRuleNthEYM
+import DateutilVerif.Proofs.RRuleWeeknoEYearly
 import DateutilVerif.Proofs.RRuleConstructSetIter
 
 namespace C01
@@ -528,6 +535,40 @@ theorem iter_eq_spec_weekly_weekno_partial (a : Args) (r : Rule) (wa : WeeklyWAr
     (n : Nat) (hn : W0 a + 7 * (n * a.interval) + 7 ≤ maxOrdinal + 1) :
     (iter r n).1 = Spec.RRule.occ a n :=
   iter_eq_spec_weekly_weekno wa h n hn
+
+/-- **`iter_eq_spec`, proved portion, nth BYDAY together with BYWEEKNO** (nth members only = outside D-C01a; BYWEEKNO on the
+    complement of D-C01c; week start 0..6; no BYEASTER): MONTHLY, YEARLY without BYMONTH (ordinals counted inside the year) and
+    YEARLY with BYMONTH (inside each listed month).  With BYDAY given, neither the constructor nor the specification's date
+    predicate looks at BYWEEKNO anywhere else, so the argument side is the nth family on the arguments without BYWEEKNO ∧ the
+    week clause; the model side carries both masks. -/
+theorem iter_eq_spec_nth_weekno_partial (a : Args) (r : Rule) (h : construct a = .ok r) (n : Nat) :
+    (NthWMArgs a → (a.dtstart.y * 12 + (a.dtstart.m - 1) + n * a.interval) / 12 ≤ 9999 → (iter r n).1 = Spec.RRule.occ a n) ∧
+    (NthWYArgs a → a.dtstart.y + n * a.interval ≤ 9999 → (iter r n).1 = Spec.RRule.occ a n) ∧
+    (NthWYMArgs a → a.dtstart.y + n * a.interval ≤ 9999 → (iter r n).1 = Spec.RRule.occ a n) :=
+  ⟨fun na hm => iter_eq_spec_monthly_nth_weekno na h n hm, fun na hy => iter_eq_spec_yearly_nth_weekno na h n hy,
+   fun na hy => iter_eq_spec_yearly_bymonth_nth_weekno na h n hy⟩
+
+-- the last Friday of the month when it lies in week 4, 13 or the last week of the year
+example : NthWMArgs { freq := 1, dtstart := ⟨2024, 1, 1, 18, 0, 0, 0⟩, byweekday := some [(4, -1)], byweekno := some [4, 13, -1] } :=
+  ⟨rfl, by decide, by decide, by decide, rfl, by intro x hx; simp at hx, ⟨[(4, -1)], rfl, by decide, by decide⟩,
+   ⟨[4, 13, -1], rfl, by decide, ⟨by decide, by decide⟩⟩⟩
+
+/-- **`iter_eq_spec`, proved portion, BYEASTER together with nth BYDAY or with BYWEEKNO** (offsets −80..250, years 1583..4099):
+    MONTHLY / YEARLY / YEARLY+BYMONTH with nth BYDAY (nth members only) and BYEASTER, no BYWEEKNO; YEARLY with BYWEEKNO (complement
+    of D-C01c, week start 0..6) and BYEASTER, plain BYDAY allowed. -/
+theorem iter_eq_spec_easter_mixed_partial (a : Args) (r : Rule) (h : construct a = .ok r) (n : Nat) (hlo : 1583 ≤ a.dtstart.y) :
+    (NthEMArgs a → (a.dtstart.y * 12 + (a.dtstart.m - 1) + n * a.interval) / 12 ≤ 4099 → (iter r n).1 = Spec.RRule.occ a n) ∧
+    (NthEYArgs a → a.dtstart.y + n * a.interval ≤ 4099 → (iter r n).1 = Spec.RRule.occ a n) ∧
+    (NthEYMArgs a → a.dtstart.y + n * a.interval ≤ 4099 → (iter r n).1 = Spec.RRule.occ a n) ∧
+    (WeeknoEYArgs a → a.dtstart.y + n * a.interval ≤ 4099 → (iter r n).1 = Spec.RRule.occ a n) :=
+  ⟨fun na hm => iter_eq_spec_monthly_nth_easter na h n hlo hm, fun na hy => iter_eq_spec_yearly_nth_easter na h n hlo hy,
+   fun na hy => iter_eq_spec_yearly_bymonth_nth_easter na h n hlo hy,
+   fun wa hy => iter_eq_spec_yearly_weekno_easter wa h n hlo hy⟩
+
+-- Easter Sundays and Mondays that fall in week 14 or 15
+example : WeeknoEYArgs { freq := 0, dtstart := ⟨2024, 1, 1, 10, 0, 0, 0⟩, byweekno := some [14, 15], byeaster := some [0, 1] } :=
+  ⟨rfl, by decide, by decide, by decide, by intro x hx; simp at hx, by intro w hw; simp at hw,
+   ⟨[14, 15], rfl, by decide, ⟨by decide, by decide⟩⟩, ⟨[0, 1], rfl, by decide, by decide⟩⟩
 
 /-- **`iter_eq_spec`, proved portion, DAILY with BYWEEKNO** — and the same extension holds in the five sub-daily
     theorems below: their argument classes (`HourlyArgs`, `HourlyByArgs`, `MinutelyArgs`, `MinutelyByArgs`,
